@@ -335,6 +335,22 @@ def hosts_expand():
             h.n(op, ["y", "e"] if swap else ["e", "y"], "z")
             h.out("z")
             out.append(h.build())
+    # the expand shape is NOT a constant (Shape of another input): the rule has to reason from the annotated shapes alone;
+    # operands of different ranks, dims that coincide on other axes
+    dyn = [((1, 3), (4, 3), (4, 1, 3)), ((1, 3), (4, 3), (4, 3)), ((1, 3), (4, 3), (3,)), ((3,), (4, 3), (4, 1, 3)), ((1, 3), (4, 3), (1, 4, 3)),
+           ((1, 1), (3, 3), (3, 1, 3)), ((1, 3), (3, 3), (3, 1, 3)), ((2, 1), (2, 3), (3,)), ((2, 1), (2, 3), (2, 2, 3)), ((1, 3), (4, 3), (4, 4, 3)),
+           ((1, 2, 1), (3, 2, 4), (4,)), ((1, 2, 1), (3, 2, 4), (3, 1, 4)), ((1, 2, 1), (3, 2, 4), (2, 3, 2, 4))]
+    for xs, zs, ys in dyn:
+        for op, swap in itertools.product(["Add", "Mul"], [False, True]):
+            h = H(f"{op}(Expand(x={list(xs)}, Shape(z={list(zs)})), y={list(ys)}) swap={swap}")
+            h.inp("x", F, xs)
+            h.inp("z", F, zs)
+            h.inp("y", F, ys)
+            h.n("Shape", ["z"], "s")
+            h.n("Expand", ["x", "s"], "e")
+            h.n(op, ["y", "e"] if swap else ["e", "y"], "w")
+            h.out("w")
+            out.append(h.build())
     return out
 
 
@@ -833,6 +849,62 @@ def hosts_shape_attrs():
     return out
 
 
+def hosts_optional_inputs():
+    """Foldable nodes (all present operands constant) with an OMITTED optional input in the middle of the input list, feeding a
+    data op; and the same nodes with a symbolic data operand (not foldable) - used by C03/C04"""
+    out = []
+    cdata = (np.arange(24, dtype=f32).reshape(2, 3, 4) - 7) / 2
+    for const_data in (True, False):
+        def data(h):
+            if const_data:
+                h.c("d", cdata)
+                h.inp("x", F, (2, 3, 4))
+            else:
+                h.inp("d", F, (2, 3, 4))
+                h.inp("x", F, (2, 3, 4))
+        # Slice(data, starts, ends, <axes omitted>, steps)
+        for starts, ends, steps in [([0, 1], [2, 3], [1, 2]), ([1], [2], [1]), ([0, 0, 0], [2, 3, 4], [1, 1, 2]), ([0], [2], [2])]:
+            h = H(f"Slice(data{'(const)' if const_data else ''}, {starts}, {ends}, '', steps={steps})")
+            data(h)
+            h.c("st", np.array(starts, dtype=np.int64))
+            h.c("en", np.array(ends, dtype=np.int64))
+            h.c("sp", np.array(steps, dtype=np.int64))
+            h.n("Slice", ["d", "st", "en", "", "sp"], "s")
+            h.n("ReduceSum", ["s"], "r", keepdims=0)
+            h.n("Mul", ["x", "r"], "y")
+            h.out("y", "s")
+            out.append(h.build())
+        # Clip(data, <min omitted>, max) and Clip(data, min)
+        for lo, hi in [(None, 1.5), (None, -3.0), (0.5, None), (None, None)]:
+            h = H(f"Clip(data{'(const)' if const_data else ''}, min={lo}, max={hi})")
+            data(h)
+            ins = ["d", "", ""]
+            if lo is not None:
+                h.c("lo", np.array(lo, dtype=f32))
+                ins[1] = "lo"
+            if hi is not None:
+                h.c("hi", np.array(hi, dtype=f32))
+                ins[2] = "hi"
+            while ins and ins[-1] == "":
+                ins.pop()
+            h.n("Clip", ins, "s")
+            h.n("Add", ["x", "s"], "y")
+            h.out("y")
+            out.append(h.build())
+        # Pad(data, pads, <constant_value omitted>, axes)
+        for pads, axes in [([1, 0], [2]), ([0, 1, 1, 0], [0, 2]), ([1, 1], [-1])]:
+            h = H(f"Pad(data{'(const)' if const_data else ''}, pads={pads}, '', axes={axes})")
+            data(h)
+            h.c("p", np.array(pads, dtype=np.int64))
+            h.c("ax", np.array(axes, dtype=np.int64))
+            h.n("Pad", ["d", "p", "", "ax"], "s")
+            h.n("ReduceSum", ["s"], "r", keepdims=0)
+            h.n("Mul", ["x", "r"], "y")
+            h.out("y", "s")
+            out.append(h.build())
+    return out
+
+
 def hosts_conv_integer():
     """ConvInteger behind a Pad (constant 0 / equal to the zero point / other), with and without zero points (scalar, per-channel),
     uint8 and int8 data; auto_pad forms for the normalisation rule"""
@@ -1071,7 +1143,7 @@ FAMILIES = {
     "dropout_runtime": hosts_dropout_runtime,
     "expand": hosts_expand, "reshape_family": hosts_reshape_family, "clip_relu_minmax": hosts_clip_relu_minmax,
     "hardswish": hosts_hardswish, "matmul_gemm": hosts_matmul_gemm, "conv": hosts_conv, "scatter": hosts_scatter,
-    "control_flow": hosts_control_flow, "conv_integer": hosts_conv_integer, "shape_attrs": hosts_shape_attrs,
+    "control_flow": hosts_control_flow, "conv_integer": hosts_conv_integer, "shape_attrs": hosts_shape_attrs, "optional_inputs": hosts_optional_inputs,
 }
 
 
@@ -1095,6 +1167,6 @@ def rule_models_for_optimizer(tier):
         out = []
         for fam, hs in by_fam.items():
             r.shuffle(hs)
-            out += hs if fam == "control_flow" else hs[:60] if fam == "shape_attrs" else hs[:25]
+            out += hs if fam in ("control_flow", "optional_inputs") else hs[:60] if fam == "shape_attrs" else hs[:25]
         return out
     return hosts
